@@ -1988,7 +1988,7 @@ theorem step_lastpark_starts_gc {c : Cfg} {s s' : State} {w tag : Nat} (hs : ste
     unfold onLastParked at hlp
     simp only [hcur] at hlp
     unfold respond at hlp
-    simp only [hcur, hreq, Option.isSome_none, Bool.false_eq_true, if_false, if_true] at hlp
+    simp only [hreq, Option.isSome_none, Bool.false_eq_true, if_false, if_true] at hlp
     injection hlp with hlp; injection hlp with hl1 _; subst hl1
     exact ⟨rfl, rfl, rfl⟩
 
@@ -2068,5 +2068,129 @@ theorem gc_request_completes {c : Cfg} {tr : Nat → State} {act : Nat → Optio
     · exact (hpre i e).2
     · have : i = j0 + 1 := by omega
       subst this; rw [hg1]; exact hg0
+
+/-! ## finite runs extended by stuttering are fair runs (used for the satisfiability examples) -/
+
+/-- the states of the run `l` from `s`, then `s` repeated -/
+def runStates (c : Cfg) : State → List Act → Nat → State
+  | s, [], _ => s
+  | s, _ :: _, 0 => s
+  | s, a :: as, k+1 =>
+    match step c s a with
+    | some s' => runStates c s' as k
+    | none => s
+
+theorem runStates_zero (c : Cfg) (s : State) (l : List Act) : runStates c s l 0 = s := by
+  cases l <;> rfl
+
+theorem runStates_spec (c : Cfg) : ∀ (l : List Act) (s sf : State), exec c s l = some sf →
+    (∀ k, StepOf c (runStates c s l k) (runStates c s l (k+1)) (l[k]?)) ∧
+    (∀ k, l.length ≤ k → runStates c s l k = sf) := by
+  intro l
+  induction l with
+  | nil =>
+    intro s sf h
+    simp only [exec] at h; injection h with h; subst h
+    exact ⟨fun k => by simp [runStates, StepOf], fun k _ => rfl⟩
+  | cons a as ih =>
+    intro s sf h
+    simp only [exec] at h
+    cases hs : step c s a with
+    | none => rw [hs] at h; cases h
+    | some s1 =>
+      rw [hs] at h
+      obtain ⟨i1, i2⟩ := ih s1 sf h
+      constructor
+      · intro k
+        cases k with
+        | zero =>
+          show StepOf c s (runStates c s (a :: as) 1) (some a)
+          simp only [runStates, hs, runStates_zero]
+          exact hs
+        | succ k =>
+          have := i1 k
+          simp only [runStates, hs, List.getElem?_cons_succ]
+          exact this
+      · intro k hk
+        cases k with
+        | zero => simp at hk
+        | succ k =>
+          simp only [runStates, hs]
+          exact i2 k (by simpa using hk)
+
+theorem not_enabled_all_waiting {c : Cfg} {s : State} (h : ∀ w, w < c.n → s.pc w = .waiting) (f : FairAct) :
+    ¬ Enabled c s f := by
+  intro ⟨a, hm, he⟩
+  have key : ∀ w, (w < c.n → False) ∨ s.pc w = .waiting := by
+    intro w; by_cases hw : w < c.n
+    · exact Or.inr (h w hw)
+    · exact Or.inl hw
+  cases f with
+  | finish w =>
+    simp only [FairAct.mem] at hm; subst hm
+    rcases key w with hw | hw
+    · cases hp : s.pc w <;> simp [step, hp] at he; exact hw he
+    · simp [step, hw] at he
+  | take w =>
+    simp only [FairAct.mem] at hm
+    rcases key w with hw | hw
+    · rcases hm with ⟨b, p, rfl⟩ | ⟨p, rfl⟩ | ⟨p, rfl⟩ | ⟨v, p, rfl⟩ <;>
+        (cases hp : s.pc w <;> simp [step, hp] at he; exact hw he.1)
+    · rcases hm with ⟨b, p, rfl⟩ | ⟨p, rfl⟩ | ⟨p, rfl⟩ | ⟨v, p, rfl⟩ <;> simp [step, hw] at he
+  | look w k =>
+    simp only [FairAct.mem] at hm; subst hm
+    rcases key w with hw | hw
+    · cases hp : s.pc w <;> simp [step, hp] at he; exact hw he.1
+    · simp [step, hw] at he
+  | miss w =>
+    simp only [FairAct.mem] at hm; subst hm
+    rcases key w with hw | hw
+    · cases hp : s.pc w <;> simp [step, hp] at he; exact hw he.1
+    · simp [step, hw] at he
+  | park w =>
+    simp only [FairAct.mem] at hm; obtain ⟨tag, rfl⟩ := hm
+    rcases key w with hw | hw
+    · have : step c s (.park w tag) = none := by
+        simp only [step]; rw [if_neg (fun hh => hw hh.1)]
+      rw [this] at he; cases he
+    · have : step c s (.park w tag) = none := by
+        simp only [step]; rw [if_neg (fun hh => by rw [hw] at hh; cases hh.2.1)]
+      rw [this] at he; cases he
+  | wake w =>
+    simp only [FairAct.mem] at hm; subst hm
+    rcases key w with hw | hw
+    · simp only [step] at he; rw [if_neg (fun hh => hw hh.1)] at he; cases he
+    · simp [step, hw] at he
+  | surrender w =>
+    simp only [FairAct.mem] at hm; subst hm
+    have : step c s (.surrender w) = none := by
+      simp only [step]
+      split
+      · rcases key w with hw | hw
+        · rw [if_neg (fun hh => hw hh.1)]
+        · rw [if_neg (fun hh => by rw [hw] at hh; cases hh.2)]
+      · rfl
+    rw [this] at he; cases he
+
+/-- a finite run that ends with every worker waiting, continued by stuttering, is a fair run -/
+theorem fairRun_of_finite {c : Cfg} {s0 sf : State} {l : List Act} (hr : Reachable c s0) (he : exec c s0 l = some sf)
+    (hw : ∀ w, w < c.n → sf.pc w = .waiting) : FairRun c (runStates c s0 l) (fun k => l[k]?) where
+  start := by rw [runStates_zero]; exact hr
+  next := (runStates_spec c l s0 sf he).1
+  fair := fun f k => ⟨max k l.length, by omega, Or.inr (by
+    rw [(runStates_spec c l s0 sf he).2 _ (by omega)]; exact not_enabled_all_waiting hw f)⟩
+
+theorem runStates_forall {c : Cfg} {s sf : State} {l : List Act} (he : exec c s l = some sf) (P : State → Prop)
+    (h1 : ∀ k, k < l.length → P (runStates c s l k)) (h2 : P sf) : ∀ j, P (runStates c s l j) := by
+  intro j
+  by_cases hj : j < l.length
+  · exact h1 j hj
+  · rw [(runStates_spec c l s sf he).2 j (by omega)]; exact h2
+
+theorem exec_getD {c : Cfg} {s d : State} {l : List Act} (h : (exec c s l).isSome = true) :
+    exec c s l = some ((exec c s l).getD d) := by
+  cases e : exec c s l with
+  | none => rw [e] at h; cases h
+  | some x => rfl
 
 end Mmtk.Sched
